@@ -6,6 +6,7 @@ import HkModel.Drive.Auth
 import HkModel.Drive.Signing
 import HkModel.Drive.ApiAuth
 import HkModel.Drive.Mcp
+import HkModel.Drive.Limits
 /-! `hkdriver <mode>`: reads protocol lines on stdin, answers one line per input line. -/
 open Hk
 
@@ -52,6 +53,7 @@ def main (args : List String) : IO UInt32 := do
   | ["signing"] => runPure DriveSigning.processLine
   | ["apiauth"] => runPure DriveApiAuth.processLine
   | ["mcp"] => runPure DriveMcp.processLine
+  | ["limits"] => runPure DriveLimits.processLine
   | ["auth"] =>
     let st ← loopAuth stdin stdout {}
     stdout.putStrLn ("SUMMARY {\"steps\":" ++ toString st.n ++ ",\"not_ok\":" ++ toString st.bad ++ "}")
